@@ -7,7 +7,7 @@ Binding (A): TLC enumerates every edge (state x operation) of the storage-shaped
 reference observation of every step; each history is rendered to one strict-mode JS program that applies it
 (a) to a real array, (b) through Array.prototype.X.call on an equivalent plain array-like built from the
 model's pre-state, (c) to a Proxy-wrapped array with a forwarding handler, and dumps length / own keys /
-descriptors / return values natively after every step (hjs)."""
+descriptors / return values natively after every step (harness crate harr = hjs + optional storage-kind hook)."""
 import json, os, random, sys, multiprocessing, hashlib
 import vlib
 
@@ -82,6 +82,7 @@ function mkL(len, lw, ext, props) {
   return L;
 }
 var A, P, L, C0, C1;
+function KIND(o) { return typeof __kind === "function" ? __kind(o) : "?"; }
 ''' % GETTER_CAP
 
 
@@ -131,6 +132,8 @@ def ret_lines(ret, keylist=False):
         return ["s:R s:self"]
     if k == "arr":
         return ["s:R s:arr b:true"] + dump_lines(ret[1], True)
+    if k == "listv":
+        return ret_lines(["list", ret[1]])[:-1] + ret_lines(ret[2])
     if k == "list":
         out = []
         for it in ret[1]:
@@ -171,7 +174,8 @@ STRING_KEYS = {"x": '"x"', "4294967295": "4294967295"}
 LIST_KINDS = {"keys", "values", "entries", "forEach", "okeys", "forin"}
 METHODS = {"push", "pop", "shift", "unshift", "splice", "fill", "copyWithin", "reverse", "sort", "concat", "slice",
            "flat", "indexOf", "lastIndexOf", "includes", "join", "at", "with", "toReversed", "toSorted", "toSpliced",
-           "keys", "values", "entries", "spread", "map", "filter", "forEach"}
+           "keys", "values", "entries", "spread", "map", "filter", "forEach", "find", "findIndex", "findLast",
+           "findLastIndex", "some", "every", "reduce", "reduceRight", "flatMap", "from"}
 
 
 def opt(has, v):
@@ -211,6 +215,14 @@ def method_args(op):
         return "function (x) { return true; }"
     if k == "forEach":
         return 'function (x) { PR("I", enc(x)); }'
+    if k in ("find", "findIndex", "findLast", "findLastIndex", "some"):
+        return 'function (x) { PR("I", enc(x)); return false; }'
+    if k == "every":
+        return 'function (x) { PR("I", enc(x)); return true; }'
+    if k in ("reduce", "reduceRight"):
+        return 'function (acc, x) { PR("I", enc(x)); return acc; }, 0'
+    if k == "flatMap":
+        return "function (x) { return x; }"
     return ""
 
 
@@ -221,6 +233,8 @@ def op_code(op, T, like):
         args = method_args(op)
         if k == "spread":
             return "pret([...%s]);" % (("Array.prototype.values.call(%s)" % T) if like else T)
+        if k == "from":
+            return "pret(Array.from(%s));" % T
         call = ("Array.prototype.%s.call(%s%s)" % (k, T, (", " + args) if args else "")) if like else ("%s.%s(%s)" % (T, k, args))
         if k in ("keys", "values", "entries"):
             pr = 'PR("I", x.value[0], enc(x.value[1]))' if k == "entries" else 'PR("I", enc(x.value))'
@@ -262,6 +276,12 @@ def op_code(op, T, like):
         return 'var r = Object.keys(%s); for (var j = 0; j < r.length; j++) PR("I", r[j]); PR("R", "end");' % T
     if k == "forin":
         return 'for (var k in %s) PR("I", k); PR("R", "end");' % T
+    if k == "ownnames":
+        return 'var r = Object.getOwnPropertyNames(%s); for (var j = 0; j < r.length; j++) PR("I", r[j]); PR("R", "end");' % T
+    if k == "ovalues":
+        return 'var r = Object.values(%s); for (var j = 0; j < r.length; j++) PR("I", enc(r[j])); PR("R", "end");' % T
+    if k == "hasIn":
+        return "pret(%d in %s);" % (op["i"], T)
     raise vlib.ToolError("unknown op kind %r" % k)
 
 
@@ -293,12 +313,13 @@ def step_block(n, st, pre_d, prefix):
     operations compiled to a named-property store, C (the same code site already executed once on another array,
     so that the inline cache is hot).  prefix: rebuild the state first (node mode) or None (linear mode)."""
     op = st["op"]
-    kl = op["k"] in ("okeys", "forin")
+    kl = op["k"] in ("okeys", "forin", "ownnames")
     src = []
     exp = {}
     for w in ("A", "P"):
-        src.append('%sprint("W", %d, "%s"); CUR = %s; try { %s } catch (e) { perr(e); } dump(%s);'
-                   % ((prefix_code(w, prefix, w == "P") + " ") if prefix else "", n, w, w, op_code(op, w, False), w))
+        src.append('%sprint("W", %d, "%s"); CUR = %s; try { %s } catch (e) { perr(e); } dump(%s);%s'
+                   % ((prefix_code(w, prefix, w == "P") + " ") if prefix else "", n, w, w, op_code(op, w, False), w,
+                      ' print("S", KIND(A));' if w == "A" else ""))
         exp[w] = ret_lines(st["ret"], kl) + dump_lines(st["d"], True)
     if op["k"] in METHODS:
         src.append('print("W", %d, "L"); L = %s; CUR = L; try { %s } catch (e) { perr(e); } dump(L);'
@@ -316,7 +337,7 @@ def render_node(hist, steps):
     """All operations `steps` applied (each to a freshly rebuilt copy) to the state reached by `hist`.
     Returns (program, {(n, world): expected lines}); block 0 is the state itself."""
     src = [PRELUDE, prefix_code("A", hist), prefix_code("P", hist, True),
-           'print("W", 0, "A"); dump(A); print("W", 0, "P"); dump(P);']
+           'print("W", 0, "A"); dump(A); print("S", KIND(A)); print("W", 0, "P"); dump(P);']
     d0 = dump_lines(hist[-1]["d"], True)
     exp = {(0, "A"): d0, (0, "P"): d0}
     for n, st in enumerate(steps, 1):
@@ -330,7 +351,7 @@ def render_node(hist, steps):
 def render_linear(hist):
     """One history applied step by step; named-property stores additionally in world C (fresh copies)."""
     src = [PRELUDE, prefix_code("A", hist[:1]), prefix_code("P", hist[:1], True),
-           'print("W", 0, "A"); dump(A); print("W", 0, "P"); dump(P);']
+           'print("W", 0, "A"); dump(A); print("S", KIND(A)); print("W", 0, "P"); dump(P);']
     d0 = dump_lines(hist[0]["d"], True)
     exp = {(0, "A"): d0, (0, "P"): d0}
     for n in range(1, len(hist)):
@@ -369,16 +390,20 @@ def run_programs(binary, progs, procs=8):
 
 
 def split_blocks(out):
-    blocks = {}
+    """print trace -> {(n, world): lines}, {(n, world): observed storage form}"""
+    blocks, kinds = {}, {}
     cur = None
     for ln in out:
         if ln.startswith("s:W n:"):
             parts = ln.split(" ")
             cur = (int(parts[1][2:]), parts[2][2:])
             blocks[cur] = []
+        elif ln.startswith("s:S s:"):
+            if cur is not None:
+                kinds[cur] = ln[6:]
         elif cur is not None:
             blocks[cur].append(ln)
-    return blocks
+    return blocks, kinds
 
 
 def compare(exp, res):
@@ -388,7 +413,8 @@ def compare(exp, res):
     if "panic" in res or "abort" in res:
         return [], {"what": "panic", "panic": res.get("panic") or res.get("abort")}
     st = res["steps"][0]
-    blocks = split_blocks(st["out"])
+    blocks, kinds = split_blocks(st["out"])
+    res["_kinds"] = kinds
     fails = []
     for key in sorted(exp):
         e = exp[key]
@@ -533,6 +559,24 @@ def nontrivial_node(node):
     return len(set(kinds)) > 1 or nondefault or kinds[-1] in ("SE", "SP")
 
 
+def note_kinds(stats, res, failed, pre_kind, steps, prefix_ops):
+    """Storage forms observed through the optional hook vs. the forms predicted by ArrayStorage.tla (drift only)."""
+    kinds = res.get("_kinds", {})
+    stats["hook"] = stats.get("hook", False) or bool(res.get("kindhook"))
+    obs0 = kinds.get((0, "A"), "?")
+    if obs0 == "?":
+        return
+    if obs0 != pre_kind and (0, "A") not in failed:
+        stats.setdefault("drift", []).append({"history": prefix_ops, "predicted": pre_kind, "observed": obs0})
+    for n, (op, k) in enumerate(steps, 1):
+        o = kinds.get((n, "A"), "?")
+        if o == "?" or (n, "A") in failed:
+            continue
+        stats.setdefault("observed", {}).setdefault(obs0, set()).add(op["k"])
+        if o != k:
+            stats.setdefault("drift", []).append({"history": prefix_ops + [op], "predicted": k, "observed": o})
+
+
 def check_nodes(ck, binary, nodes, stats):
     """Returns list of failing op-lists with (world, diff, program)."""
     progs, exps = [], []
@@ -550,6 +594,8 @@ def check_nodes(ck, binary, nodes, stats):
         if fatal is not None:
             redo.append(nd)       # a panic / abrupt end hides the other blocks: isolate per operation
             continue
+        note_kinds(stats, res[i], {(n, "A") for n, w, d in f if w == "A"}, nd["h"][-1]["kind"],
+                   [(st["op"], st["kind"]) for st in nd["steps"]], ops_of(nd["h"]))
         if any(n == 0 for n, w, d in f):
             # the state itself is already wrong: the culprit is the last operation of the prefix (an edge of the
             # parent state); what follows from this state is a consequence, not another failure
@@ -690,8 +736,8 @@ def tlc_nodes(ck, cfg, tier, timeout):
 
 def run(tier, replay=None):
     ck = vlib.Check("C14", tier, "model_checking", replay)
-    bindir = vlib.build_harness(["hjs"])
-    binary = os.path.join(bindir, "hjs")
+    bindir = vlib.build_harness(["harr"])
+    binary = os.path.join(bindir, "harr")
     stats = {"lines": 0, "blocks": 0}
 
     if replay:
@@ -762,6 +808,17 @@ def run(tier, replay=None):
             ck.sample({"history": ops_of(nd["h"]), "storage": [s["kind"] for s in nd["h"]],
                        "operation": nd["steps"][-1]["op"], "expected_return": nd["steps"][-1]["ret"][:1],
                        "expected_keys": [e[0] for e in nd["steps"][-1]["d"]["ix"]]}, cap=4)
+    drift = stats.get("drift", [])
+    seen_d = set()
+    for d in drift:
+        key = json.dumps(d["history"][-1], sort_keys=True) + d["predicted"] + d["observed"]
+        if key not in seen_d and len(seen_d) < 10:
+            seen_d.add(key)
+            vlib.log("MODEL-DRIFT: storage form after %s predicted %s observed %s" % (json.dumps(d["history"]), d["predicted"], d["observed"]))
+    ck.drift += len(drift)
+    ck.cov["storage_hook"] = bool(stats.get("hook"))
+    if stats.get("observed"):
+        ck.cov["observed_forms_x_operation_kinds"] = {k: len(v) for k, v in sorted(stats["observed"].items())}
     ck.cov.update(states=states, transitions=transitions, traces_validated_against_impl=edges_total + sim_count,
                   evaluations=stats["lines"], world_blocks=stats["blocks"], distinct_nontrivial=nt,
                   checker_cmd="; ".join(cmds), forms_x_operation_kinds={k: len(v) for k, v in sorted(kinds.items())},
